@@ -81,6 +81,7 @@ def rule_r1(p, res):
     r = res.rule("C19.R1", "element callables are called only in the scalar branch of __getitem__ and inside map's deferred helper")
     c = _lazy(p)
     allowed_total = 0
+    lambda_deferral = []
     for name, f in sorted(c.methods.items()):
         r.instance(f)
         user_fn_params = [q for q in f.params[1:] if q in ("f",)]
@@ -91,7 +92,7 @@ def rule_r1(p, res):
             owner = k
             nested = None
             while owner is not None and owner is not f.node:
-                if isinstance(owner, ast.FunctionDef) and owner is not f.node:
+                if isinstance(owner, (ast.FunctionDef, ast.Lambda)) and owner is not f.node:
                     nested = owner
                 owner = getattr(owner, "_parent", None)
             if name == "__getitem__" and nested is None:
@@ -102,9 +103,14 @@ def rule_r1(p, res):
                 r.check(ok, f, k, "__getitem__ evaluates `%s` under guards %s: only the single requested element may be evaluated, and only for a scalar index" % (norm(k)[:50], gs),
                         {"site": norm(k), "guards": gs})
                 allowed_total += 1
-            elif name == "map" and nested is not None and nested.name == "delayed":
+            elif name == "map" and nested is not None and getattr(nested, "name", None) == "delayed":
                 allowed_total += 1
                 r.ok({"site": "map.delayed: " + norm(k)})
+            elif name == "map" and isinstance(nested, ast.Lambda) and not isinstance(getattr(nested, "_parent", None), ast.Call):
+                # a lambda stored per element defers the call just as partial(delayed, ...) does (what it binds is C19.R8's question)
+                allowed_total += 1
+                lambda_deferral.append(nested)
+                r.ok({"site": "map.<lambda>: " + norm(k)})
             elif name in ("init_from_iterable",) and nested is not None:
                 r.ok()
             else:
@@ -112,9 +118,10 @@ def rule_r1(p, res):
     # the deferred helper is only ever deferred
     mp = p.own_method("LazyList", "map")
     inner = [x for x in mp.node.body if isinstance(x, ast.FunctionDef)]
-    need(len(inner) == 1 and inner[0].name == "delayed", "C19.R1: map's deferred helper not found")
-    dl = inner[0]
-    r.check(norm(dl.body[-1]) == "return %s(%s())" % (dl.args.args[0].arg, dl.args.args[1].arg), mp, dl, "the deferred helper must evaluate exactly one element and apply the function to it")
+    need((len(inner) == 1 and inner[0].name == "delayed") or (not inner and lambda_deferral), "C19.R1: map's deferred helper not found")
+    dl = inner[0] if inner else None
+    if dl is not None:
+        r.check(norm(dl.body[-1]) == "return %s(%s())" % (dl.args.args[0].arg, dl.args.args[1].arg), mp, dl, "the deferred helper must evaluate exactly one element and apply the function to it")
     for n in walk_own(mp.node):
         if isinstance(n, ast.Name) and n.id == "delayed" and isinstance(n.ctx, ast.Load):
             par = getattr(n, "_parent", None)
@@ -416,7 +423,73 @@ def rule_r7(p, res):
         r.ok({"function": f.short, "deferred_sites": len(deferred) + len(inner)})
 
 
-RULES = [rule_r1, rule_r2, rule_r3, rule_r4, rule_r5, rule_r6, rule_r7]
+def _free_names(fn):
+    """names a lambda / nested def reads that are not its own parameters, defaults excluded (defaults are evaluated at creation)"""
+    a = fn.args
+    own = set(x.arg for x in a.posonlyargs + a.args + a.kwonlyargs)
+    if a.vararg:
+        own.add(a.vararg.arg)
+    if a.kwarg:
+        own.add(a.kwarg.arg)
+    body = [fn.body] if isinstance(fn, ast.Lambda) else fn.body
+    out = {}
+    for b in body:
+        for n in ast.walk(b):
+            if isinstance(n, ast.Name) and isinstance(n.ctx, ast.Store):
+                own.add(n.id)
+    for b in body:
+        for n in ast.walk(b):
+            if isinstance(n, ast.Name) and isinstance(n.ctx, ast.Load) and n.id not in own:
+                out.setdefault(n.id, n)
+    return out
+
+
+def _target_names(t):
+    return set(n.id for n in ast.walk(t) if isinstance(n, ast.Name))
+
+
+def rule_r8(p, res):
+    r = res.rule("C19.R8", "deferred element closures bind their per-element values when they are created: no lambda / nested function stored per element "
+                 "reads the loop or comprehension variable late (every element would see the last one)")
+    mods = ("menpo.base", "menpo.io.input.base", "menpo.io.input.video")
+    funcs = [f for f in p.all_functions() if f.module.name in mods]
+    if len(funcs) < 40:
+        raise AnalysisError("C19.R8: only %d functions in the lazy-list modules (floor 40)" % len(funcs))
+    n_loops = 0
+    for f in sorted(funcs, key=lambda x: x.qualname):
+        for node in walk_own(f.node):
+            scopes = []
+            if isinstance(node, (ast.ListComp, ast.GeneratorExp, ast.SetComp, ast.DictComp)):
+                names = set()
+                for g in node.generators:
+                    names |= _target_names(g.target)
+                elts = [node.key, node.value] if isinstance(node, ast.DictComp) else [node.elt]
+                scopes.append((names, elts))
+            elif isinstance(node, ast.For):
+                scopes.append((_target_names(node.target), node.body))
+            for names, bodies in scopes:
+                n_loops += 1
+                for b in bodies:
+                    for n in ast.walk(b):
+                        if isinstance(n, (ast.Lambda, ast.FunctionDef)):
+                            late = sorted(set(_free_names(n)) & names)
+                            if not late:
+                                continue
+                            # a closure that is called before the iteration ends is harmless; one that is stored / returned per element is not
+                            if isinstance(n, ast.FunctionDef) and isinstance(node, ast.For):
+                                escapes = any(isinstance(m, ast.Name) and m.id == n.name and isinstance(m.ctx, ast.Load) and not
+                                              any(isinstance(c, ast.Call) and c.func is m for c in ast.walk(b2)) for b2 in node.body for m in ast.walk(b2))
+                                if not escapes:
+                                    continue
+                            r.violation(f, n, "%s: the closure created per element reads `%s` from the enclosing loop when it is *called*, not when it is created: after the "
+                                        "loop every element evaluates with the last value (bind it as a default argument or with functools.partial)" % (f.short, "`, `".join(late)))
+    r.instance("%d functions, %d loops / comprehensions" % (len(funcs), n_loops))
+    if n_loops < 15:
+        raise AnalysisError("C19.R8: only %d loops/comprehensions inspected (floor 15)" % n_loops)
+    r.check(True, "menpo.base", None, "")
+
+
+RULES = [rule_r1, rule_r2, rule_r3, rule_r4, rule_r5, rule_r6, rule_r7, rule_r8]
 
 WITNESSES = [
     Witness("C19.W1", "menpo/base.py", "LazyList.repeat", "new = self.copy()", "new = self", rule="C19.R2", construct="repeat"),
@@ -451,4 +524,9 @@ WITNESSES += [
 WITNESSES += [
     Witness("C19.W12", "menpo/io/input/video.py", "FFMpegVideoReader._read_one_frame", "self.index += 1", "if self.normalize:\n        self.index += 1", rule="C19.G9", construct="_read_one_frame",
             note="seeded change R5-C19-C (generic: state update skipped on one path)"),
+]
+
+WITNESSES += [
+    Witness("C19.W_R8a", "menpo/base.py", "LazyList.map", "partial(delayed, one_f, x) for one_f, x in zip(f, new._callables)", "(lambda x=x: one_f(x())) for one_f, x in zip(f, new._callables)",
+            rule="C19.R8", construct="map", note="seeded change R6-C19-A (late-bound mapping function: every element uses the last callable)"),
 ]
